@@ -74,6 +74,9 @@ PROPS = {
         dict(kind="macro", profile="C13", preds="frame", quick=400, thorough=10000)]),
     "C14": dict(theorems=["Props/C14.v"], parts=[
         dict(kind="macro", profile="C14", preds="iso,pure", quick=400, thorough=10000)]),
+    "C19": dict(theorems=["parts/attrs/coq|CLA|Props_C19.v", "Props/C01w.v"], parts=[
+        dict(kind="ext", name="attrs", quick=2000, thorough=30000),
+        dict(kind="macro", profile="C19", preds="pure,limit,ttl,order,err,cif,inv,stats,tags,frame", quick=400, thorough=10000, panic_is_failure=True)]),
     "C16": dict(theorems=["Props/C16.v"], parts=[
         dict(kind="core", profile="C16", mask="", preds="", quick=1200, thorough=60000, panic_is_failure=True),
         dict(kind="macro", profile="C16", preds="", quick=400, thorough=10000, panic_is_failure=True)]),
